@@ -92,6 +92,8 @@ def po_status_new_bar(S):
     prev_close = w.rows[T0]["closeTick"]
     m._market_status = MarketStatus(T0, series(dict(w.rows[T0])))
     m.last_tick = S.int("last_tick_before", -MAXT, MAXT)
+    # a write operation may have run AFTER the previous bar's fee update (in after_bar / notify): the flag it set is still up when the new bar loads
+    m.has_update = S.bool("a_write_happened_after_the_previous_bar's_fee_update")
     m.set_market_status(MarketStatus(T1, None), prices({"TKA": 1, "TKB": 1}))
     own = 0
     for l in _sum_liq(m):
@@ -170,3 +172,37 @@ def po_status_first_bar(S):
     m.has_update = True
     m.set_market_status(MarketStatus(T0, None), pr)      # refresh after an operation in bar 0
     S.check("path-start-kept-on-refresh", m.last_tick == w.rows[T0]["closeTick"])
+
+
+@native
+def actuator_for(w):
+    """a real Actuator driving the world's broker (one uniswap market), with a price frame over the two bars"""
+    import pandas as pd
+    from demeter.core.actuator import Actuator
+    a = Actuator()
+    a._broker = w.broker
+    a._token_prices = pd.DataFrame({"TKA": [Decimal(1)] * 2, "TKB": [Decimal(1)] * 2}, index=[T0, T1])
+    return a
+
+
+@proof("C08", "bar-loop-refresh(Actuator.__set_market_snapshot)/own-liquidity-counted-once,path-start-kept", strength="S", shapes=MARKETS)
+def po_actuator_refresh(S):
+    """The refresh as the bar loop performs it (Actuator.__set_market_snapshot interpreted from its source): bar 0, first refresh of bar 1,
+       an operation sets has_update, second refresh of bar 1 — the status liquidity is pool + own (once) and the path still starts at bar 0's close."""
+    w = uni_world(S, S.shape["d0"], S.shape["d1"], S.shape["q0"], S.shape["npos"])
+    m = w.market
+    a = actuator_for(w)
+    a._Actuator__set_market_snapshot(T0, False)
+    a._Actuator__set_market_snapshot(T1, False)
+    own = 0
+    for l in _sum_liq(m):
+        own = own + l
+    S.check("first-refresh:status-liquidity==pool+own(once)", m.market_status.data.currentLiquidity == w.rows[T1]["currentLiquidity"] + own)
+    m.has_update = True
+    a._Actuator__set_market_snapshot(T1, True)
+    S.check("second-refresh:status-liquidity==pool+own(once)", m.market_status.data.currentLiquidity == w.rows[T1]["currentLiquidity"] + own)
+    S.check("second-refresh:path-still-starts-at-bar-0's-close", m.last_tick == w.rows[T0]["closeTick"])
+    S.check("input-frame-row-intact", w.data.at[T1, "currentLiquidity"] == w.rows[T1]["currentLiquidity"])
+    m.has_update = False
+    a._Actuator__set_market_snapshot(T1, True)
+    S.check("no-operation=>no-refresh(status-object-kept)", m.market_status.data.currentLiquidity == w.rows[T1]["currentLiquidity"] + own)
